@@ -1043,40 +1043,40 @@ Qed.
 (* ---------- a consumer: the AAA policy of a classified pair ---------- *)
 Lemma l2gw_policy_sound a s c n p :
   l2gw_policy a s c = Some (n, p) ->
-  exists cl, In cl (claims (strip a)) /\ covers cl s c /\ c_name cl = n /\ p = policy_of a n (c_idx cl) /\
-             range_l2gw a n (c_idx cl) = true.
+  exists cl, In cl (claims (strip a)) /\ covers cl s c /\ c_name cl = n /\ p = policy_of a n (c_idx cl).
 Proof.
   unfold l2gw_policy. destruct (lookup (build (strip a)) s c) as [[n' i]|] eqn:L; [|discriminate].
-  destruct (range_l2gw a n' i) eqn:R; [|discriminate].
+  destruct (l2gw_handoff a s c); [|discriminate].
   intros E; inversion E; subst. apply lookup_sound in L as [cl [Hin [Hc [Hn Hi]]]].
-  exists cl. split; [exact Hin|]. split; [exact Hc|]. split; [exact Hn|]. rewrite Hi; split; [reflexivity|exact R].
+  exists cl. split; [exact Hin|]. split; [exact Hc|]. split; [exact Hn|]. rewrite Hi; reflexivity.
 Qed.
 
 (* exact wins, at the level of the range's attributes *)
 Lemma l2gw_exact_range_policy a s c cl :
   In cl (claims (strip a)) -> c_svlan cl = s -> c_sel cl = SelExact c ->
   exists cl', In cl' (claims (strip a)) /\ c_svlan cl' = s /\ c_sel cl' = SelExact c /\
-              l2gw_policy a s c = if range_l2gw a (c_name cl') (c_idx cl')
+              l2gw_policy a s c = if l2gw_handoff a s c
                                   then Some (c_name cl', policy_of a (c_name cl') (c_idx cl')) else None.
 Proof.
   intros Hin Hs Hse. destruct (exact_wins (strip a) s c cl Hin Hs Hse) as [cl' [H1 [H2 [H3 H4]]]].
   exists cl'; repeat split; auto. unfold l2gw_policy. rewrite H4. reflexivity.
 Qed.
 
-(* the hand-off decision is the matched range's: a pair whose range is not an l2gw range is never wholesale-switched,
-   whatever the other ranges of its group are *)
+(* a pair is wholesale-switched only when it is classified, and then by its group's access-types *)
 Lemma l2gw_handoff_sound a s c :
   l2gw_handoff a s c = true ->
-  exists cl, In cl (claims (strip a)) /\ covers cl s c /\ range_l2gw a (c_name cl) (c_idx cl) = true.
+  exists cl g, In cl (claims (strip a)) /\ covers cl s c /\ find_group a (c_name cl) = Some g /\ group_l2gw g = true.
 Proof.
   unfold l2gw_handoff. destruct (lookup (build (strip a)) s c) as [[n i]|] eqn:L; [|discriminate].
-  intros R. apply lookup_sound in L as [cl [Hin [Hc [Hn Hi]]]]. exists cl. rewrite Hn, Hi. auto.
+  destruct (find_group a n) as [g|] eqn:F; [|discriminate].
+  intros R. apply lookup_sound in L as [cl [Hin [Hc [Hn Hi]]]]. exists cl, g. rewrite Hn. auto.
 Qed.
 
 Lemma l2gw_policy_iff_handoff a s c : l2gw_handoff a s c = true <-> l2gw_policy a s c <> None.
 Proof.
-  unfold l2gw_handoff, l2gw_policy. destruct (lookup (build (strip a)) s c) as [[n i]|]; [|split; [discriminate|congruence]].
-  destruct (range_l2gw a n i); split; congruence.
+  unfold l2gw_policy. destruct (lookup (build (strip a)) s c) as [[n i]|] eqn:L.
+  - destruct (l2gw_handoff a s c); split; congruence.
+  - unfold l2gw_handoff. rewrite L. split; [discriminate|congruence].
 Qed.
 
 (* where a claim comes from: range #(c_idx) of the group named c_name, and that range's S-VLAN list contains c_svlan *)
@@ -1154,13 +1154,15 @@ Proof.
   rewrite (find_first_match (fun r => matches_svlan r s) (snd g) i ar Har Hm Hearlier). reflexivity.
 Qed.
 
-(* testing the GROUP for an l2gw range agrees with the matched range when the group's ranges are all of one kind *)
+(* asking the matched GROUP agrees with asking the matched RANGE when no group declares access-types at group level
+   and the ranges of every group are all of one kind *)
 Lemma l2gw_bygroup_agrees a s c :
   NoDup (map (fun g : agroup => fst (fst g)) a) ->
+  (forall g, In g a -> snd (snd (fst g)) = false) ->
   (forall g r r', In g a -> In r (snd g) -> In r' (snd g) -> snd (snd r) = snd (snd r')) ->
-  l2gw_handoff_bygroup a s c = l2gw_handoff a s c.
+  l2gw_handoff a s c = l2gw_handoff_byrange a s c.
 Proof.
-  intros Hnd Huni. unfold l2gw_handoff_bygroup, l2gw_handoff, range_l2gw.
+  intros Hnd Hgl Huni. unfold l2gw_handoff, l2gw_handoff_byrange, range_l2gw.
   destruct (lookup (build (strip a)) s c) as [[n i]|] eqn:L; [|reflexivity].
   apply lookup_sound in L as [cl [Hin [_ [Hn Hi]]]].
   apply claims_origin in Hin as [g0 [r0 [svs [Hg0 [Hname [Hnth _]]]]]].
@@ -1168,10 +1170,9 @@ Proof.
   pose proof (find_group_unique a Hnd ag Hag) as F. cbn [strip_group fst] in Hname. rewrite Hname, Hn in F.
   rewrite F. cbn [strip_group snd] in Hnth. rewrite nth_error_map in Hnth. rewrite Hi in Hnth.
   destruct (nth_error (snd ag) i) as [ar|] eqn:Har; [|discriminate].
-  apply nth_error_In in Har. unfold group_l2gw.
+  apply nth_error_In in Har. unfold group_l2gw. rewrite (Hgl ag Hag). cbn [orb].
   destruct (snd (snd ar)) eqn:Ef.
   - apply existsb_exists. exists ar; auto.
   - destruct (existsb (fun r : arange => snd (snd r)) (snd ag)) eqn:Ex; [|reflexivity].
     apply existsb_exists in Ex as [r' [Hr' Hf]]. rewrite (Huni ag ar r' Hag Har Hr') in Ef. congruence.
 Qed.
-
